@@ -1,3 +1,657 @@
 package harness
 
-func Main(args []string) int { return 2 }
+import (
+	"bufio"
+	"encoding/json"
+	"flag"
+	"fmt"
+	"os"
+	"os/exec"
+	"path/filepath"
+	"runtime"
+	"sort"
+	"strings"
+	"sync"
+	"time"
+
+	"verifsim/simrt"
+)
+
+// ExecuteAny dispatches on the scenario.
+func ExecuteAny(spec *RunSpec, opts RunOpts) *RunResult {
+	switch spec.Scenario {
+	case "S-CORRUPT":
+		return ExecuteCorrupt(spec, opts)
+	case "S-SHARE":
+		return ExecuteShare(spec, opts)
+	}
+	return Execute(spec, opts)
+}
+
+// KnownFinding is one entry of /verif/known_findings.json.
+type KnownFinding struct {
+	Status    string `json:"status"` // fixed | known
+	Property  string `json:"property"`
+	Commit    string `json:"commit,omitempty"`
+	Signature string `json:"signature,omitempty"` // prefix of a violation signature (known entries)
+	What      string `json:"what"`
+	Line      string `json:"line"`
+}
+
+func loadKnown(verifDir string) []KnownFinding {
+	b, err := os.ReadFile(filepath.Join(verifDir, "known_findings.json"))
+	if err != nil {
+		return nil
+	}
+	var f struct {
+		Findings []KnownFinding `json:"findings"`
+	}
+	if err := json.Unmarshal(b, &f); err != nil {
+		fmt.Fprintf(os.Stderr, "known_findings.json: %v\n", err)
+		os.Exit(2)
+	}
+	return f.Findings
+}
+
+func matchKnown(kf []KnownFinding, v *Violation) *KnownFinding {
+	for i := range kf {
+		k := &kf[i]
+		if k.Status == "known" && k.Property == v.Property && k.Signature != "" && strings.HasPrefix(v.Signature, k.Signature) {
+			return k
+		}
+	}
+	return nil
+}
+
+// Agg is what a worker reports.
+type Agg struct {
+	Runs        int                `json:"runs"`
+	Nontrivial  int                `json:"nontrivial"`
+	Steps       int64              `json:"steps"`
+	Events      int64              `json:"events"`
+	SimNS       int64              `json:"sim_ns"`
+	Probes      map[string]int     `json:"probes"`
+	Faults      map[string]int     `json:"faults"`
+	CallCounts  map[string]int     `json:"calls"`
+	Other       map[string]int     `json:"other"`
+	Distinct    []uint64           `json:"distinct"`
+	States      []uint64           `json:"states"`
+	Samples     []json.RawMessage  `json:"samples"`
+	PerPart     map[string][2]int  `json:"per_part"`
+	Budget      int                `json:"budget"`
+	MaxTables   int                `json:"max_tables"`
+	Crashes     int                `json:"crashes"`
+	Extra       map[string]float64 `json:"extra"`
+	KnownHits   map[string]int     `json:"known_hits"`
+	Tainted     int                `json:"tainted"`
+}
+
+func newAgg() *Agg {
+	return &Agg{Probes: map[string]int{}, Faults: map[string]int{}, CallCounts: map[string]int{}, Other: map[string]int{},
+		PerPart: map[string][2]int{}, Extra: map[string]float64{}, KnownHits: map[string]int{}}
+}
+
+func (a *Agg) merge(b *Agg) {
+	a.Runs += b.Runs
+	a.Nontrivial += b.Nontrivial
+	a.Steps += b.Steps
+	a.Events += b.Events
+	a.SimNS += b.SimNS
+	a.Budget += b.Budget
+	a.Crashes += b.Crashes
+	a.Tainted += b.Tainted
+	if b.MaxTables > a.MaxTables {
+		a.MaxTables = b.MaxTables
+	}
+	for k, v := range b.Probes {
+		a.Probes[k] += v
+	}
+	for k, v := range b.Faults {
+		a.Faults[k] += v
+	}
+	for k, v := range b.CallCounts {
+		a.CallCounts[k] += v
+	}
+	for k, v := range b.Other {
+		a.Other[k] += v
+	}
+	for k, v := range b.Extra {
+		a.Extra[k] += v
+	}
+	for k, v := range b.KnownHits {
+		a.KnownHits[k] += v
+	}
+	for k, v := range b.PerPart {
+		x := a.PerPart[k]
+		x[0] += v[0]
+		x[1] += v[1]
+		a.PerPart[k] = x
+	}
+	a.Distinct = append(a.Distinct, b.Distinct...)
+	a.States = append(a.States, b.States...)
+	if len(a.Samples) < 4 {
+		a.Samples = append(a.Samples, b.Samples...)
+	}
+}
+
+type planIndex struct {
+	plan  *Plan
+	tier  string
+	total int
+	start []int // first global index of each part
+}
+
+func indexPlan(p *Plan, tier string, scale float64) *planIndex {
+	pi := &planIndex{plan: p, tier: tier}
+	for _, part := range p.Parts {
+		n := part.Quick
+		if tier == "thorough" {
+			n = part.Thorough
+		}
+		n = int(float64(n) * scale)
+		if n < 1 {
+			n = 1
+		}
+		pi.start = append(pi.start, pi.total)
+		pi.total += n
+	}
+	return pi
+}
+
+func (pi *planIndex) partOf(i int) (*Part, int) {
+	k := sort.Search(len(pi.start), func(j int) bool { return pi.start[j] > i }) - 1
+	return &pi.plan.Parts[k], k
+}
+
+// RunSeed: run i is a pure function of (VERIF_SEED, property, i).
+func RunSeed(seed uint64, prop string, i int) uint64 {
+	return simrt.Hash4(seed, "run:"+prop, uint64(i), 0)
+}
+
+func sampleOf(spec *RunSpec, res *RunResult) json.RawMessage {
+	type sample struct {
+		Scenario string          `json:"scenario"`
+		RunSeed  uint64          `json:"run_seed"`
+		Cfg      CfgSpec         `json:"cfg"`
+		Setup    int             `json:"setup_ops"`
+		Tasks    []TaskSpec      `json:"tasks"`
+		Faults   []simrt.Fault   `json:"faults,omitempty"`
+		Sched    string          `json:"scheduler"`
+		Segs     []simrt.Segment `json:"schedule_segments,omitempty"`
+		Steps    int             `json:"steps"`
+		Versions int             `json:"list_versions"`
+		Calls    map[string]int  `json:"calls"`
+		Extra    *json.RawMessage `json:"extra,omitempty"`
+	}
+	s := sample{Scenario: spec.Scenario, RunSeed: spec.Seed, Cfg: spec.Cfg, Setup: len(spec.Setup), Tasks: spec.Tasks, Faults: spec.Faults,
+		Sched: spec.Sched.Mode, Segs: res.Segs, Steps: res.Steps, Versions: res.Versions, Calls: res.CallCounts, Extra: spec.Extra}
+	if len(s.Segs) > 40 {
+		s.Segs = s.Segs[:40]
+	}
+	b, _ := json.Marshal(s)
+	if len(b) > 20000 {
+		s.Tasks = nil
+		b, _ = json.Marshal(s)
+	}
+	return b
+}
+
+// ---------------------------------------------------------------- worker
+
+type workerMsg struct {
+	T      string      `json:"t"` // viol | known | agg | err
+	I      int         `json:"i,omitempty"`
+	Replay *ReplayFile `json:"replay,omitempty"`
+	Sig    string      `json:"sig,omitempty"`
+	Known  string      `json:"known,omitempty"`
+	Agg    *Agg        `json:"agg,omitempty"`
+	Err    string      `json:"err,omitempty"`
+}
+
+func buildReplay(prop string, spec *RunSpec, res *RunResult, v *Violation, from string) *ReplayFile {
+	rf := &ReplayFile{Property: prop, Signature: v.Signature, Detail: v.Detail, LogHash: res.LogHash, Spec: *spec, MinimisedFrom: from}
+	tr := res.Trace
+	if len(tr) > 120 {
+		tr = tr[len(tr)-120:]
+	}
+	rf.Trace = tr
+	return rf
+}
+
+func workerMain(args []string) int {
+	fs := flag.NewFlagSet("worker", flag.ExitOnError)
+	prop := fs.String("prop", "", "")
+	tier := fs.String("tier", "quick", "")
+	seed := fs.Uint64("seed", 1, "")
+	k := fs.Int("k", 0, "")
+	n := fs.Int("n", 1, "")
+	scale := fs.Float64("scale", 1, "")
+	verif := fs.String("verif", "/verif", "")
+	deadline := fs.Int64("deadline", 0, "unix seconds after which the worker stops starting runs")
+	fs.Parse(args)
+	plan := Plans()[*prop]
+	if plan == nil {
+		fmt.Fprintf(os.Stderr, "no plan for %s\n", *prop)
+		return 2
+	}
+	// one simulated process runs at a time anyway; a single P makes the
+	// goroutine hand-off a cheap in-thread switch (5x faster). Results do
+	// not depend on it (selftest-determinism runs with 1, 4 and 16).
+	if os.Getenv("VERIF_GOMAXPROCS") == "" {
+		runtime.GOMAXPROCS(1)
+	}
+	known := loadKnown(*verif)
+	pi := indexPlan(plan, *tier, *scale)
+	out := bufio.NewWriter(os.Stdout)
+	enc := json.NewEncoder(out)
+	emit := func(m workerMsg) { enc.Encode(m); out.Flush() }
+	agg := newAgg()
+	distinct := map[uint64]bool{}
+	states := map[uint64]bool{}
+	viols := 0
+	for i := *k; i < pi.total; i += *n {
+		if *deadline > 0 && time.Now().Unix() > *deadline {
+			agg.Extra["stopped_by_deadline"] = 1
+			break
+		}
+		part, _ := pi.partOf(i)
+		fmt.Fprintf(out, "{\"t\":\"run\",\"i\":%d}\n", i)
+		out.Flush()
+		rs := RunSeed(*seed, *prop, i)
+		spec := part.Gen(rs)
+		opts := part.Opts
+		opts.StopOn = *prop
+		res := ExecuteAny(spec, opts)
+		agg.Runs++
+		agg.Steps += int64(res.Steps)
+		agg.Events += int64(res.Events)
+		agg.SimNS += res.SimTimeNS
+		agg.Crashes += res.Crashes
+		if res.Budget {
+			agg.Budget++
+		}
+		if res.MaxTables > agg.MaxTables {
+			agg.MaxTables = res.MaxTables
+		}
+		for p, c := range res.Probes {
+			agg.Probes[p] += c
+		}
+		for p, c := range res.Counters {
+			agg.Faults[p] += c
+		}
+		for p, c := range res.CallCounts {
+			agg.CallCounts[p] += c
+		}
+		pp := agg.PerPart[part.Name]
+		pp[0]++
+		nt := plan.Nontrivial == nil || plan.Nontrivial(res)
+		if nt {
+			pp[1]++
+			agg.Nontrivial++
+			if len(distinct) < 2000000 {
+				distinct[res.Interleave] = true
+			}
+			if len(agg.Samples) < 2 {
+				agg.Samples = append(agg.Samples, sampleOf(spec, res))
+			}
+		}
+		agg.PerPart[part.Name] = pp
+		if res.World != nil && len(states) < 2000000 {
+			for h := range res.World.stateSet {
+				states[h] = true
+			}
+		}
+		for _, v := range res.Violations {
+			if v.Property != *prop {
+				agg.Other[v.Signature]++
+			}
+		}
+		if v := firstOf(res, *prop); v != nil {
+			if kf := matchKnown(known, v); kf != nil {
+				agg.KnownHits[kf.Line]++
+				agg.Tainted++
+				continue
+			}
+			viols++
+			// minimise, then re-run with the log kept
+			rp := ToReplay(spec, res)
+			min, _ := Minimise(rp, *prop, v.Signature, part.Opts, 3000)
+			o2 := part.Opts
+			o2.StopOn = *prop
+			o2.KeepLog = true
+			r2 := ExecuteAny(min, o2)
+			v2 := firstOf(r2, *prop)
+			if v2 == nil || v2.Signature != v.Signature {
+				// minimisation lost it (should not happen): report the original
+				r2 = ExecuteAny(rp, o2)
+				v2 = firstOf(r2, *prop)
+				min = rp
+				if v2 == nil {
+					emit(workerMsg{T: "err", I: i, Err: fmt.Sprintf("NONDETERMINISM: run %d (seed %d) violated %s live but not on replay", i, rs, v.Signature)})
+					continue
+				}
+			}
+			emit(workerMsg{T: "viol", I: i, Sig: v2.Signature, Replay: buildReplay(*prop, min, r2, v2, fmt.Sprintf("VERIF_SEED=%d run=%d run_seed=%d", *seed, i, rs))})
+			if viols >= 2 {
+				break
+			}
+		}
+	}
+	for h := range distinct {
+		agg.Distinct = append(agg.Distinct, h)
+	}
+	for h := range states {
+		agg.States = append(agg.States, h)
+	}
+	emit(workerMsg{T: "agg", Agg: agg})
+	return 0
+}
+
+// ---------------------------------------------------------------- replay
+
+func replayMain(args []string) int {
+	fs := flag.NewFlagSet("replay", flag.ExitOnError)
+	real := fs.Bool("real", false, "pass-through: replay on a real temporary directory")
+	verbose := fs.Bool("v", false, "print the event log")
+	fs.Parse(args)
+	if fs.NArg() != 1 {
+		fmt.Fprintln(os.Stderr, "usage: sim replay [--real] [-v] <file>")
+		return 2
+	}
+	b, err := os.ReadFile(fs.Arg(0))
+	if err != nil {
+		fmt.Fprintln(os.Stderr, err)
+		return 2
+	}
+	var rf ReplayFile
+	if err := json.Unmarshal(b, &rf); err != nil {
+		fmt.Fprintln(os.Stderr, err)
+		return 2
+	}
+	opts := RunOpts{StopOn: rf.Property, KeepLog: true}
+	if plan := Plans()[rf.Property]; plan != nil {
+		for _, part := range plan.Parts {
+			if strings.HasPrefix(part.Name, rf.Spec.Scenario) {
+				opts.DeepReads = part.Opts.DeepReads
+				opts.DeepRefsFor = part.Opts.DeepRefsFor
+			}
+		}
+	}
+	if *real {
+		d, err := os.MkdirTemp("", "verif-real-")
+		if err != nil {
+			fmt.Fprintln(os.Stderr, err)
+			return 2
+		}
+		defer os.RemoveAll(d)
+		opts.RealDir = d
+	}
+	res := ExecuteAny(&rf.Spec, opts)
+	if *verbose {
+		for _, l := range res.Trace {
+			fmt.Println(l)
+		}
+	}
+	v := firstOf(res, rf.Property)
+	if v == nil {
+		fmt.Printf("replay: no violation of %s (recorded: %s)\n", rf.Property, rf.Signature)
+		return 0
+	}
+	fmt.Printf("replay: %s\n        %s\n", v.Signature, v.Detail)
+	if v.Signature != rf.Signature {
+		fmt.Printf("replay: signature differs from the recorded one (%s)\n", rf.Signature)
+		return 3
+	}
+	if !*real && res.LogHash != rf.LogHash {
+		fmt.Printf("replay: event-log hash %s differs from the recorded %s\n", res.LogHash, rf.LogHash)
+		return 3
+	}
+	fmt.Printf("VIOLATION property=%s replay=%s\n", rf.Property, fs.Arg(0))
+	return 1
+}
+
+// ---------------------------------------------------------------- orchestrator
+
+func checkMain(args []string) int {
+	fs := flag.NewFlagSet("check", flag.ExitOnError)
+	prop := fs.String("prop", "", "")
+	tier := fs.String("tier", "quick", "")
+	seed := fs.Uint64("seed", 1, "")
+	verif := fs.String("verif", "/verif", "")
+	workers := fs.Int("workers", 0, "")
+	scale := fs.Float64("scale", 1, "")
+	maxWall := fs.Int("max-wall", 0, "seconds; workers stop starting runs after this")
+	fs.Parse(args)
+	start := time.Now()
+	if custom := customChecks[*prop]; custom != nil {
+		return custom(*prop, *tier, *seed, *verif, *scale)
+	}
+	plan := Plans()[*prop]
+	if plan == nil {
+		fmt.Fprintf(os.Stderr, "check: no plan for property %q\n", *prop)
+		return 2
+	}
+	nw := *workers
+	if nw <= 0 {
+		nw = runtime.NumCPU()
+		if nw > 16 {
+			nw = 16
+		}
+	}
+	pi := indexPlan(plan, *tier, *scale)
+	if pi.total < nw {
+		nw = pi.total
+	}
+	if *maxWall == 0 {
+		*maxWall = 600
+		if *tier == "thorough" {
+			*maxWall = 3 * 3600
+		}
+	}
+	deadline := time.Now().Unix() + int64(*maxWall)
+	self, _ := os.Executable()
+	total := newAgg()
+	var mu sync.Mutex
+	var viols []*ReplayFile
+	var errs []string
+	var wg sync.WaitGroup
+	infra := false
+	for k := 0; k < nw; k++ {
+		wg.Add(1)
+		go func(k int) {
+			defer wg.Done()
+			cmd := exec.Command(self, "worker", "--prop", *prop, "--tier", *tier, "--seed", fmt.Sprint(*seed), "--k", fmt.Sprint(k), "--n", fmt.Sprint(nw),
+				"--scale", fmt.Sprint(*scale), "--verif", *verif, "--deadline", fmt.Sprint(deadline))
+			cmd.Stderr = os.Stderr
+			pipe, err := cmd.StdoutPipe()
+			if err != nil {
+				mu.Lock()
+				infra = true
+				mu.Unlock()
+				return
+			}
+			if err := cmd.Start(); err != nil {
+				mu.Lock()
+				infra = true
+				errs = append(errs, err.Error())
+				mu.Unlock()
+				return
+			}
+			sc := bufio.NewScanner(pipe)
+			sc.Buffer(make([]byte, 1<<20), 1<<30)
+			last := -1
+			gotAgg := false
+			for sc.Scan() {
+				var m workerMsg
+				if err := json.Unmarshal(sc.Bytes(), &m); err != nil {
+					continue
+				}
+				switch m.T {
+				case "run":
+					last = m.I
+				case "viol":
+					mu.Lock()
+					viols = append(viols, m.Replay)
+					mu.Unlock()
+				case "err":
+					mu.Lock()
+					errs = append(errs, m.Err)
+					infra = true
+					mu.Unlock()
+				case "agg":
+					mu.Lock()
+					total.merge(m.Agg)
+					gotAgg = true
+					mu.Unlock()
+				}
+			}
+			err = cmd.Wait()
+			if err != nil || !gotAgg {
+				mu.Lock()
+				infra = true
+				errs = append(errs, fmt.Sprintf("worker %d died (%v) while executing run %d (run seed %d)", k, err, last, RunSeed(*seed, *prop, last)))
+				mu.Unlock()
+			}
+		}(k)
+	}
+	wg.Wait()
+	wall := time.Since(start).Seconds()
+
+	// report
+	code := 0
+	sort.Slice(viols, func(i, j int) bool { return viols[i].Signature < viols[j].Signature })
+	seen := map[string]bool{}
+	nviol := 0
+	repDir := filepath.Join(*verif, "out", "replays")
+	os.MkdirAll(repDir, 0755)
+	for _, rf := range viols {
+		if seen[rf.Signature] {
+			continue
+		}
+		seen[rf.Signature] = true
+		if nviol >= 5 {
+			break
+		}
+		name := fmt.Sprintf("%s-%016x.json", *prop, simrt.HashStr(*seed, rf.Signature))
+		path := filepath.Join(repDir, name)
+		b, _ := json.MarshalIndent(rf, "", " ")
+		os.WriteFile(path, b, 0644)
+		// confirm in a fresh process
+		out, err := exec.Command(self, "replay", path).CombinedOutput()
+		ec := 0
+		if ee, ok := err.(*exec.ExitError); ok {
+			ec = ee.ExitCode()
+		}
+		if ec == 1 {
+			fmt.Printf("%s\n    %s\n", rf.Signature, rf.Detail)
+			fmt.Printf("VIOLATION property=%s replay=%s\n", *prop, path)
+			nviol++
+			code = 1
+		} else {
+			fmt.Printf("NONDETERMINISM: %s did not reproduce in a fresh process (exit %d):\n%s\n", path, ec, out)
+			infra = true
+		}
+	}
+	var khits []string
+	for line := range total.KnownHits {
+		khits = append(khits, line)
+	}
+	sort.Strings(khits)
+	for _, l := range khits {
+		fmt.Printf("KNOWN-FINDING: property=%s %s\n", *prop, l)
+	}
+	for _, e := range errs {
+		fmt.Fprintln(os.Stderr, "check:", e)
+	}
+	writeEvidence(*verif, plan, *tier, *seed, total, wall, nviol, nw)
+	fmt.Printf("check %s tier=%s seed=%d: %d runs (%d non-trivial, %d distinct), %d steps, %.1fs wall, violations=%d\n",
+		*prop, *tier, *seed, total.Runs, total.Nontrivial, countDistinct(total.Distinct), total.Steps, wall, nviol)
+	if infra && code == 0 {
+		return 2
+	}
+	return code
+}
+
+func countDistinct(xs []uint64) int {
+	m := map[uint64]bool{}
+	for _, x := range xs {
+		m[x] = true
+	}
+	return len(m)
+}
+
+func writeEvidence(verif string, plan *Plan, tier string, seed uint64, a *Agg, wall float64, nviol int, workers int) {
+	dn := countDistinct(a.Distinct)
+	cov := map[string]interface{}{
+		"evaluations":         a.Runs,
+		"distinct_nontrivial": dn,
+		"rule":                plan.Rule,
+		"samples":             a.Samples,
+		"nontrivial_runs":     a.Nontrivial,
+		"runs_per_scenario":   a.PerPart,
+		"simulated_steps":     a.Steps,
+		"filesystem_events":   a.Events,
+		"simulated_time_s":    float64(a.SimNS) / 1e9,
+		"runs_per_hour":       float64(a.Runs) / wall * 3600,
+		"seeds_per_hour":      float64(a.Runs) / wall * 3600,
+		"fault_kinds_fired":   a.Faults,
+		"process_crashes":     a.Crashes,
+		"reach_probes":        a.Probes,
+		"api_calls_by_result": a.CallCounts,
+		"distinct_states":     countDistinct(a.States),
+		"distinct_states_measure": "distinct (tables.list length, multiset of path classes in the directory, per-handle staleness vector) sampled after every completed call",
+		"distinct_interleavings_measure": "distinct hashes of the shared-path filesystem event sequence projected to (task, call kind, path class, result), counted over non-trivial runs",
+		"max_tables":          a.MaxTables,
+		"step_budget_exceeded": a.Budget,
+		"violations_of_other_properties_seen": a.Other,
+		"known_finding_hits":  a.KnownHits,
+		"tainted_runs":        a.Tainted,
+		"workers":             workers,
+		"real_components":     []string{"package reftable (stack, writer, reader, block, record, merged, refname) compiled from /repo's working tree", "compress/zlib", "hash/crc32"},
+		"stub_components":     []string{"os / io/ioutil filesystem calls (in-memory POSIX-subset disk)", "time (simulated clock)", "math/rand (hash-addressed name stream)", "process boundaries (goroutines resumed one at a time stand in for OS processes)"},
+	}
+	for k, v := range a.Extra {
+		cov[k] = v
+	}
+	if len(a.Samples) == 0 {
+		cov["samples"] = []string{"no non-trivial run in this batch"}
+	}
+	ev := map[string]interface{}{
+		"property_id": plan.Prop,
+		"tier":        tier,
+		"seed":        seed,
+		"level":       plan.Level,
+		"coverage":    cov,
+		"assumptions": append([]string{
+			"the in-memory filesystem implements the POSIX subset faithfully (differential self-test against the kernel: bin/check selftest)",
+			"processes share nothing but the directory, so interleaving at filesystem-call granularity is complete",
+			"schedules, histories and fault placements are sampled, not enumerated",
+		}, plan.Assumptions...),
+		"wall_s":     wall,
+		"violations": nviol,
+	}
+	b, _ := json.MarshalIndent(ev, "", " ")
+	os.MkdirAll(filepath.Join(verif, "evidence"), 0755)
+	os.WriteFile(filepath.Join(verif, "evidence", plan.Prop+".json"), b, 0644)
+}
+
+// customChecks holds checks with their own drivers (C06, C17, C18, C19, selftests).
+var customChecks = map[string]func(prop, tier string, seed uint64, verif string, scale float64) int{}
+
+// Main is the entry point of the sim binary.
+func Main(args []string) int {
+	if len(args) == 0 {
+		fmt.Fprintln(os.Stderr, "usage: sim check|worker|replay ...")
+		return 2
+	}
+	switch args[0] {
+	case "check":
+		return checkMain(args[1:])
+	case "worker":
+		return workerMain(args[1:])
+	case "replay":
+		return replayMain(args[1:])
+	}
+	fmt.Fprintf(os.Stderr, "unknown command %q\n", args[0])
+	return 2
+}
